@@ -256,6 +256,22 @@ def directed_modules(codec):
     m.types.append(('C', Ty('CHOICE', root=[Member('x', Ty('REF', ref='E4')), Member('y', Ty('REF', ref='I8')),
                                             Member('z', Ty('NULL'))])))
     items.append(('M', 'C', [('x', 'n'), ('x', 'q'), ('y', -32768), ('z', None)]))
+    # the same member name with a DEFAULT in an inline nested SEQUENCE and in the SEQUENCE around it; presence
+    # patterns that differ between consecutive elements of a list of inline SEQUENCEs
+    inner = Ty('SEQUENCE', root=[Member('x', Ty('INTEGER', rng=Rng(0, 15)), has_default=True, default=2, default_txt='2'),
+                                 Member('y', Ty('BOOLEAN'))])
+    m.types.append(('S2', Ty('SEQUENCE', root=[Member('n', inner),
+                                               Member('x', Ty('INTEGER', rng=Rng(0, 7)), has_default=True, default=3,
+                                                      default_txt='3'),
+                                               Member('z', Ty('BOOLEAN'))])))
+    items.append(('M', 'S2', [{'n': {'x': 2, 'y': True}, 'x': 5, 'z': False}, {'n': {'x': 9, 'y': False}, 'x': 3, 'z': True},
+                              {'n': {'x': 9, 'y': True}, 'x': 5, 'z': True}, {'n': {'y': True}, 'z': False}]))
+    el = Ty('SEQUENCE', root=[Member('a', Ty('INTEGER', rng=Rng(0, 255)), optional=True),
+                              Member('b', Ty('BOOLEAN'), has_default=True, default=True, default_txt='TRUE'),
+                              Member('c', Ty('INTEGER', rng=Rng(0, 7)))])
+    m.types.append(('LS', Ty('SEQUENCE OF', elem=el, size=Rng(0, 4))))
+    items.append(('M', 'LS', [[{'a': 1, 'b': False, 'c': 1}, {'c': 2}, {'a': 200, 'c': 3}, {'b': False, 'c': 4}],
+                              [{'c': 7}, {'a': 0, 'b': False, 'c': 0}], []]))
     out.append((Spec([m]), items))
     return out
 
